@@ -812,7 +812,7 @@ def gen_models(tier):
                       timeout=2400, mem="4g")
         return mcs, mcd, sim
     def chain3():
-        return tlc.run("AsCore_Gen", cfgx, workers=2, timeout=1500, mem="4g")
+        return tlc.run("AsCore_Gen", cfgx, workers=2 if tier == "quick" else 4, timeout=1500, mem="4g")
     with cf.ThreadPoolExecutor(max_workers=3) as ex:
         f1, f2, f3 = ex.submit(chain1), ex.submit(chain2), ex.submit(chain3)
         mc, mcm = f1.result()
